@@ -3,7 +3,7 @@
 # Usage: run_repo_tests.sh [repo_dir]
 R=${1:-/repo}
 cd "$R" || exit 2
-echo "== pinned (cwd=$R)"; /venv/bin/python -m pytest -q -p no:cacheprovider --timeout=900 --continue-on-collection-errors 2>&1 | tail -1
+echo "== pinned (cwd=$R)"; PYTHONPATH="$R" /venv/bin/python -m pytest -q -p no:cacheprovider --timeout=900 --continue-on-collection-errors 2>&1 | tail -1
 for d in exporters_tests lisp_parsers_tests models_tests multi_agent_tests; do
   cd "$R/tests/$d" || exit 2
   echo "== wider $d"; PYTHONPATH="$R" /venv/bin/python -m pytest -q -p no:cacheprovider --timeout=900 . 2>&1 | tail -1
